@@ -271,7 +271,7 @@ func runCanonical(c Case) *pt.Failure {
 	var cols, ph, pkConds []string
 	var allArgs, pkArgs []interface{}
 	for _, col := range tb.Cols {
-		cols = append(cols, col.Name)
+		cols = append(cols, gen.Q(col.Name))
 		ph = append(ph, "?")
 		allArgs = append(allArgs, rowVals[col.Name].Arg())
 	}
@@ -303,14 +303,14 @@ func runCanonical(c Case) *pt.Failure {
 			if !exists {
 				continue
 			}
-			q, args = "UPDATE "+tn+" SET "+nonKey.Name+" = ? WHERE "+strings.Join(pkConds, " AND "), append([]interface{}{bump(nonKey)}, pkArgs...)
+			q, args = "UPDATE "+tn+" SET "+gen.Q(nonKey.Name)+" = ? WHERE "+strings.Join(pkConds, " AND "), append([]interface{}{bump(nonKey)}, pkArgs...)
 		case "select_for_update":
 			if !exists {
 				continue
 			}
 			q, args, query = "SELECT * FROM "+tn+" WHERE "+strings.Join(pkConds, " AND ")+" FOR UPDATE", pkArgs, true
 		case "upsert":
-			q, args = "INSERT INTO "+tn+" ("+strings.Join(cols, ", ")+") VALUES ("+strings.Join(ph, ", ")+") ON DUPLICATE KEY UPDATE "+nonKey.Name+" = VALUES("+nonKey.Name+")", append(append([]interface{}{}, allArgs[:len(tb.PK)]...), bumpAll(tb)...)
+			q, args = "INSERT INTO "+tn+" ("+strings.Join(cols, ", ")+") VALUES ("+strings.Join(ph, ", ")+") ON DUPLICATE KEY UPDATE "+gen.Q(nonKey.Name)+" = VALUES("+gen.Q(nonKey.Name)+")", append(append([]interface{}{}, allArgs[:len(tb.PK)]...), bumpAll(tb)...)
 		case "delete":
 			if !exists {
 				continue
